@@ -1,6 +1,8 @@
 SPECIFICATION Spec
 CONSTANTS
   Proc = {p1}
+  BackupProcs = {p1}
+  PruneProcs = {p1}
   Version = {"v1", "v2"}
   Needs <- NeedsB
   KD = 1
